@@ -3,7 +3,10 @@ package gen
 import (
 	"errors"
 	"fmt"
+	"os"
+	"path/filepath"
 	"sort"
+	"strings"
 
 	"github.com/sdcio/yang-parser/compile"
 	"github.com/sdcio/yang-parser/parse"
@@ -47,6 +50,9 @@ type Options struct {
 	// "enable-disable-enable".
 	FeatureSupply   string
 	FeatureUniverse []string
+	// Entry: the public entry point the set is compiled through. "" = CompileParseTrees on trees
+	// parsed with parse.Parse; see EntryPoints.
+	Entry string
 	Filter          compile.SchemaFilter
 	MapOrder        []int // prefix of map-order choices (nil = Go's native order, chooser off); use []int{} for canonical order
 	Horizon         int64
@@ -101,6 +107,10 @@ func Compile(mods map[string]string, o Options) (res Result) {
 		names = append(names, n)
 	}
 	sort.Strings(names)
+	if o.Entry != "" {
+		compileVia(mods, names, o, &res)
+		return
+	}
 	for _, n := range names {
 		t, err := parse.Parse(n+".yang", mods[n], nil)
 		if err != nil {
@@ -140,4 +150,116 @@ func Compile(mods map[string]string, o Options) (res Result) {
 	}
 	res.MS = ms
 	return
+}
+
+// EntryPoints lists the other public ways into the compiler that Options.Entry selects.  The three
+// CompileModules* functions take parse trees and the name of a directory holding the enabled features
+// (<dir>/<module>/<feature>); the three CompileDir* functions read the module files of a directory and
+// take a Config (features from such a directory, from an explicit checker, or from both).
+func EntryPoints() []string {
+	return []string{"CompileModules", "CompileModulesWithWarnings", "CompileModulesWithWarningsAndCustomFunctions",
+		"CompileDir:caps", "CompileDir:names", "CompileDir:caps+names", "CompileDirWithWarnings:caps+names", "CompileDirKeepMods:names"}
+}
+
+func compileVia(mods map[string]string, names []string, o Options, res *Result) {
+	dir, err := os.MkdirTemp("", "verif-entry-")
+	if err != nil {
+		res.Err, res.Stage = err, "harness"
+		return
+	}
+	defer os.RemoveAll(dir)
+	caps := filepath.Join(dir, "caps")
+	writeCaps := func(feats []string) {
+		for _, f := range feats {
+			if i := strings.Index(f, ":"); i > 0 {
+				os.MkdirAll(filepath.Join(caps, f[:i]), 0o755)
+				os.WriteFile(filepath.Join(caps, f[:i], f[i+1:]), nil, 0o644)
+			}
+		}
+	}
+	os.MkdirAll(caps, 0o755)
+	entry, supply := o.Entry, ""
+	if i := strings.Index(entry, ":"); i >= 0 {
+		entry, supply = entry[:i], entry[i+1:]
+	}
+	var ms schema.ModelSet
+	if strings.HasPrefix(entry, "CompileModules") {
+		trees := map[string]*parse.Tree{}
+		for _, n := range names {
+			t, err := parse.Parse(n+".yang", mods[n], nil)
+			if err != nil {
+				res.Err, res.Stage = err, "parse"
+				return
+			}
+			trees[n] = t
+		}
+		writeCaps(o.Features)
+		switch entry {
+		case "CompileModules":
+			ms, err = compile.CompileModules(nil, trees, caps, false, o.Filter)
+		case "CompileModulesWithWarnings":
+			ms, _, err = compile.CompileModulesWithWarnings(nil, trees, caps, false, o.Filter)
+		default:
+			ms, _, err = compile.CompileModulesWithWarningsAndCustomFunctions(nil, trees, caps, false, o.Filter, nil)
+		}
+	} else {
+		ydir := filepath.Join(dir, "yang")
+		os.MkdirAll(ydir, 0o755)
+		for _, n := range names {
+			os.WriteFile(filepath.Join(ydir, n+".yang"), []byte(mods[n]), 0o644)
+		}
+		cfg := &compile.Config{YangDir: ydir, Filter: o.Filter}
+		half := len(o.Features) / 2
+		switch supply {
+		case "caps":
+			writeCaps(o.Features)
+			cfg.CapsLocation = caps
+		case "names":
+			cfg.Features = compile.FeaturesFromNames(true, o.Features...)
+		default: // caps+names: one half each
+			writeCaps(o.Features[:half])
+			cfg.CapsLocation = caps
+			cfg.Features = compile.FeaturesFromNames(true, o.Features[half:]...)
+		}
+		switch entry {
+		case "CompileDir":
+			ms, err = compile.CompileDir(nil, cfg)
+		case "CompileDirWithWarnings":
+			ms, _, err = compile.CompileDirWithWarnings(nil, cfg)
+		default:
+			ms, err, _, _ = compile.CompileDirKeepMods(nil, cfg)
+		}
+	}
+	if err != nil {
+		res.Err, res.Stage = err, "compile"
+		return
+	}
+	res.MS = ms
+}
+
+// EntryPointDisagreements compiles the set through every entry point and returns a description of each
+// one whose verdict or schema differs from base (the result of the default entry with the same options).
+func EntryPointDisagreements(mods map[string]string, o Options, base Result) []string {
+	var out []string
+	baseDump := ""
+	if base.OK() {
+		baseDump = DumpString(base.MS, DumpOpts{})
+	}
+	for _, e := range EntryPoints() {
+		o2 := o
+		o2.Entry, o2.MapOrder = e, nil
+		if o2.Features == nil {
+			o2.Features = []string{}
+		}
+		r := Compile(mods, o2)
+		switch {
+		case r.Verdict() != base.Verdict():
+			out = append(out, fmt.Sprintf("%s: verdict %s (%v %v), default entry point: %s (%v)", e, r.Verdict(), r.Err, r.Panic, base.Verdict(), base.Err))
+		case r.OK():
+			if d := DumpString(r.MS, DumpOpts{}); d != baseDump {
+				out = append(out, fmt.Sprintf("%s: schema differs: %s", e, FirstDiff(baseDump, d)))
+			}
+		}
+	}
+	return out
 }
